@@ -161,6 +161,36 @@ Theorem c12_concurrent_consumer_view :
 Proof. exact @concurrent_consumer_view. Qed.
 Print Assumptions c12_concurrent_consumer_view.
 
+(* "all schedules", with the mutex explicit (C12/Concurrent.v).  Every method of the concurrent
+   queue is Lock (RLock for Len); one call on the inner queue; Unlock.  Each call is three
+   scheduler-visible steps of its goroutine (acquire, body, release), the RWMutex is a state,
+   an acquire that cannot be granted leaves the goroutine where it is, and a schedule is ANY list
+   of goroutine ids, for ANY programs.  Whatever the schedule: the queue and the results are
+   those of the ATOMIC schedule made of the bodies in the order they ran (so c12_concurrent,
+   c12_concurrent_producer_order and c12_concurrent_consumer_view apply to it: the
+   linearisation point of a call is its body step); mutual exclusion holds (a writer is alone in
+   its critical section, readers are inside Len only); and every goroutine's bodies follow its
+   program order. *)
+Theorem c12_fine_grained_is_atomic :
+  forall (A : Type) (nilv : A) (maxFirst maxInternal : Z) (progs : list (list (uop A))) (sched : list nat),
+    let s := frun nilv maxFirst maxInternal (finit progs) sched in
+    crun nilv maxFirst maxInternal uq_init (ftrace s) = (fq s, fouts s) /\
+    lock_ok s /\ order_ok progs s.
+Proof.
+  intros A nilv mf mi progs sched. split; [apply fine_is_atomic|].
+  split; [apply fine_mutual_exclusion|apply fine_program_order].
+Qed.
+Print Assumptions c12_fine_grained_is_atomic.
+
+Example c12_example_fine_grained :
+  let progs := [[UPush 1; UPush 2; ULen]; [UPop; UPop]; [ULen; UPush 3]] in
+  let s := frun 0 16 128 (finit progs)
+             [0; 2; 1; 0; 0; 2; 2; 1; 1; 2; 1; 0; 2; 0; 2; 1; 0; 1; 0; 1; 0; 0; 0; 2]%nat in
+  (* goroutine 2's Len had to wait for goroutine 0's Push; goroutine 0 is inside Len at the end *)
+  ftrace s = [(0, UPush 1); (2, ULen); (1, UPop); (0, UPush 2)] /\
+  fouts s = [UONone; UOInt 1; UOVal 1; UONone] /\ flock s = Readers [0%nat].
+Proof. vm_compute. repeat split; reflexivity. Qed.
+
 (* non-vacuity: a sized deque meets the hypotheses; a history that grows, wraps, rotates,
    shrinks and reads out of range computes, and agrees with the list *)
 Example c12_example_init :
